@@ -146,6 +146,8 @@ def op_text(op):
         return "setskip %s %s" % (hx(op[1]), hx(op[2]))
     if k == "staletmp":
         return "staletmp %s" % hx(op[1])
+    if k == "dudtmp":
+        return "staletmp %s" % hx(op[1])          # for the model: nothing of the modelled project changes
     if k in ("write", "writeold"):
         return "write %s %s" % (hx(op[1]), op[2])       # writeold: same for the model (timestamps are not content)
     if k in ("rm", "mkdir", "fifo", "uncopy"):
@@ -427,8 +429,18 @@ class Project:
         wd = cwd or self.cwd
         # $PWD as a shell would set it (Go's os.Getwd trusts it when it names the current directory)
         env = dict(self.env, PWD=os.fsdecode(wd))
+        # the process environment beyond variables: `VERIF_UMASK` (octal) and `VERIF_NOFILE` (descriptor limit) of the case's env
+        um, nof = env.pop("VERIF_UMASK", None), env.pop("VERIF_NOFILE", None)
+        pre = None
+        if um or nof:
+            def pre():
+                if um:
+                    os.umask(int(um, 8))
+                if nof:
+                    import resource
+                    resource.setrlimit(resource.RLIMIT_NOFILE, (int(nof), int(nof)))
         p = subprocess.run([self.dud_bin] + args, cwd=wd, env=env, stdout=subprocess.PIPE,
-                           stderr=subprocess.PIPE, stdin=subprocess.DEVNULL, timeout=timeout)
+                           stderr=subprocess.PIPE, stdin=subprocess.DEVNULL, timeout=timeout, preexec_fn=pre)
         return p.returncode, ROOT_WARNING.sub(b"", p.stdout), p.stderr
 
     def rel_to_cwd(self, p):
@@ -955,7 +967,12 @@ def apply_op(proj, op, mstep, b3):
             if os.path.exists(p):
                 os.chmod(p, 0o644)
                 with open(p, "wb") as f:
-                    f.write(content_bytes(op[2]))
+                    if op[2].startswith("sp:"):
+                        s_, n_, total_ = op[2].split(":")[1:]
+                        f.write(gen_content(int(s_), int(n_)))
+                        f.truncate(int(total_))          # the object is EXTENDED by a hole
+                    else:
+                        f.write(content_bytes(op[2]))
                 os.chmod(p, 0o444)
                 if b3.file(p) != d:
                     proj.harness_corrupted.add(d)
@@ -1014,6 +1031,10 @@ def apply_op(proj, op, mstep, b3):
             with open(path, "w") as f:
                 yaml.safe_dump(doc, f, default_flow_style=False)
             proj.cmds[op[1]] = op[2]
+        elif k == "dudtmp":
+            # another program's (or a killed dud's) temporary file inside .dud/
+            with open(os.path.join(os.fsencode(proj.root), b".dud", op[1]), "wb") as f:
+                f.write(b"leftover " + op[1] + b"\n")
         elif k == "staletmp":
             # what a dud killed while writing this stage file left behind: `<stage>.tmp`, here LONGER than any stage file
             with open(proj.abspath(op[1]) + b".tmp", "wb") as f:
